@@ -40,10 +40,10 @@ def sweep(ctx):
     return {"violations": vio,
             "coverage": {"sweep_colours_per_depth": res["checked"], "sweep_stride": res["stride"],
                          "sweep_exhaustive": res["stride"] == 1,
-                         "near_ties": res["near_ties"], "worst_excess": res["worst_excess"], "worst_at": res["worst_at"],
+                         "near_ties": res["near_ties"], "differs_from_exact_model": res["differs_from_exact_model"], "worst_excess": res["worst_excess"], "worst_at": res["worst_at"],
                          "tolerance": res["tolerance"]},
-            "notes": ["c20sweep: %d colours per depth (stride %d), %d not exactly optimal under f32, worst excess %.3g (tolerance 1e-6)"
-                      % (res["checked"], res["stride"], res["near_ties"], res["worst_excess"])]}
+            "notes": ["c20sweep: %d colours per depth (stride %d); %d differ from the exact optimum over the typed tables; against the palette entries placed by the library's own conversion %d are not exactly optimal, worst excess %.3g (tolerance 1e-6)"
+                      % (res["checked"], res["stride"], res["differs_from_exact_model"], res["near_ties"], res["worst_excess"])]}
 
 
 PROP = {'gen': [],
@@ -54,15 +54,39 @@ PROP = {'gen': [],
  'props_module': 'Props.C20',
  'corr_check': 'SNT.Corr.C20Corr.c20_check (exact model Encoder/Color256.v vs the SGR bytes of surf_n_term::encoder::TTYEncoder for '
                'FaceModify{fg,bg,underline_color}; predicate: brute-force minimum over the 240 entries / 4 levels, tolerance 1e-6)',
- 'level_text': 'placeholder',
- 'level_note': 'placeholder',
+ 'level_text': 'Coq theorems over an exact-rational model of the colour reduction in color_sgr_encode: for ALL channel values and ANY '
+               'strictly increasing tables (6 cube levels, 24 greys) the selected index is a non-system one whose entry minimises the '
+               'Euclidean distance among all 240 entries (nearest search with the coded tie rule; per-channel separability for the '
+               'cube; mean argument for the grey ramp; final comparison); the tables in the source, re-extracted on every run, are '
+               'strictly increasing and within 1e-6 of the library\'s own linearisation of the xterm levels; hence every 8-bit colour '
+               'gets a closest entry; the grey level is a nearest of the four by luma and monotone in it; true colour transmits the '
+               'channels unchanged (C05 SGR theorem). The f32 implementation is compared BY THE PROPERTY: the palette entry it emits '
+               '(fg, bg and underline roles, parsed by the independent SGR interpreter) must be within 1e-6 in linear-light distance '
+               'of the brute-force optimum over the xterm palette placed by the library\'s own conversion; an exact-integer sweep in '
+               'Rust covers every 7th colour (quick) or all 2^24 (thorough: 30 colours not exactly optimal, worst excess 2.62e-7).',
+ 'level_note': 'Trusted: Coq kernel + vm_compute; translate/enc_tables.py (CUBE, GREYS, grey levels as exact decimals; sRGB->linear '
+               'table dumped through LinColor::from as exact values of the f32 results); slice::binary_search_by modelled by its '
+               'contract on sorted slices (partition point); luma weights 0.2126/0.7152/0.0722 of rasterize::Color::luma as read; '
+               'f32 evaluation is NOT modelled: the implementation is tied to the exact model by the correspondence with the stated '
+               'tolerance 1e-6 (distance) / 1e-6 (luma). No axioms (Print Assumptions: closed under the global context).',
  'technique': 'Coq proof (sorted-table nearest search, per-channel separability, mean argument for greys) + regenerated tables + '
               'model/implementation correspondence by the property with a stated tolerance',
  'design_ref': 'DESIGN.md 6.20',
- 'n_quick': 9000,
+ 'n_quick': 6000,
  'n_thorough': 200000,
  'shard': 1000,
  'level': 'proof',
  'extra': [sweep],
- 'trusted_base': [KERNEL, HARNESS],
- 'assumptions': []}
+ 'trusted_base': [KERNEL,
+                  'translate/enc_tables.py + harness tool srgb: CUBE / GREYS / grey-depth levels and SGR codes re-extracted from '
+                  'src/encoder.rs, the 256-entry sRGB->linear table re-dumped from the built crate, on every run (Gen/TabColor.v)',
+                  'hand-written exact model Encoder/Color256.v of nearest / the EightBit and Gray arms of color_sgr_encode, tied to the '
+                  'code by the correspondence run (tolerance 1e-6) and by the exact-integer sweep (harness tool c20sweep)',
+                  'specification: Euclidean distance in the library\'s linear-light space to the 240 non-system xterm palette '
+                  'entries (cube levels 0,95,135,175,215,255; greys 8+10k); brute-force minimum (proved to be the minimum)',
+                  HARNESS],
+ 'assumptions': ['opaque colours (alpha 255): premultiplication by alpha = 1 is the identity',
+                 'the implementation evaluates in f32; agreement with the exact model is required up to 1e-6 in distance '
+                 '(observed: identical choice for all 2^24 colours with respect to the typed tables)',
+                 'grey depth: the four levels are the system colours black < bright black < white < bright white, standing for '
+                 'luminance 0, 1/3, 2/3, 1 (checked within 0.01 on the regenerated levels)']}
